@@ -78,24 +78,49 @@ def name_first(ctx, cfg, fs):
                     ok_false = True
     ctx.ob('N.name-first', 'take_cmd:records-position', ok_true and ok_false, 'take_cmd records the matched index in `current` (and clears it when nothing matched): %s/%s' % (ok_true, ok_false), where=b.where(), cfg=cfg)
 
+def name_test(fs, b):
+    """where ParseCommand::eval decides whether one of its names is the next item: entry blocks of the matched region,
+    entry block of the unmatched region, the name lists that are tried.  Two shapes are understood:
+    `longs.iter().any(|l| args.take_cmd(l)) || shorts.iter().any(..)` and loops that set a flag on the first take_cmd
+    that succeeds."""
+    ITERS_ = DEFAULT_THROUGH + [r'slice::<impl \[T\]>::iter$', r'IntoIterator>?::into_iter$']
+    anyc = [c for c in b.calls() if c.is_(r'Iterator>?::any\b')]
+    clo_tk = [x for clo in fs.closures_of(b) for x in clo.calls() if x.is_(r'take_cmd$')]
+    own_tk = [c for c in b.calls() if c.is_(r'take_cmd$')]
+    if anyc and clo_tk and not own_tk:
+        sws = [switch_on_call(b, c) for c in anyc]
+        if any(s is None or s.kind != 'bool' for s in sws):
+            raise Broken('ParseCommand::eval: cannot decode the name tests')
+        recv = set()
+        for c in anyc:
+            for q in provenance(b, c.args[0], c.bb, 'term', through=ITERS_):
+                recv.add('.'.join(q.path))
+        # unmatched region: reachable only through the false edge of the last test
+        return {'matched_entries': [s.target(True) for s in sws], 'unmatched_entry': sws[-1].target(False), 'tried': recv, 'sites': len(clo_tk)}
+    if own_tk and not clo_tk:
+        fr = flag_regions(b, own_tk)
+        if fr is None:
+            raise Broken('ParseCommand::eval: name matching not understood (take_cmd is called in loops but no flag records the first success)')
+        (f, d) = fr
+        recv = set()
+        for c in own_tk:
+            for n in b.calls():
+                if n.is_(r'Iterator>?::next$') and b.dominates(n.bb, c.bb) and b.reaches(c.bb, [n.bb]):
+                    for q in provenance(b, n.args[0], n.bb, 'term', through=ITERS_):
+                        if q.kind == 'param' and q.what == 'self':
+                            recv.add('.'.join(q.path))
+        return {'matched_entries': [d.target(True)], 'unmatched_entry': d.target(False), 'tried': recv, 'sites': len(own_tk)}
+    raise Broken('ParseCommand::eval: name matching not found')
+
 def matched(ctx, cfg, fs):
     b = ctx.look(fs.one(r'^<params::ParseCommand<T> as Parser<T>>::eval$'))
     fam = fs.family(b)
-    # the match test: two `any` calls whose closures call take_cmd
-    anyc = [c for c in b.calls() if c.is_(r'Iterator>?::any\b')]
-    tk = [x for clo in fs.closures_of(b) for x in clo.calls() if x.is_(r'take_cmd$')]
-    if len(anyc) < 1 or not tk:
-        raise Broken('ParseCommand::eval: name matching not found')
-    # unmatched region: reachable only through false edges of all any-switches
-    sws = [switch_on_call(b, c) for c in anyc]
-    if any(s is None or s.kind != 'bool' for s in sws):
-        raise Broken('ParseCommand::eval: cannot decode the name tests')
-    last = sws[-1]
-    unmatched_entry = last.target(False)
+    nt = name_test(fs, b)
+    unmatched_entry = nt['unmatched_entry']
     unmatched = reachable_edges(b, unmatched_entry)
     matched_blocks = set()
-    for s in sws:
-        matched_blocks |= reachable_edges(b, s.target(True))
+    for e in nt['matched_entries']:
+        matched_blocks |= reachable_edges(b, e)
     matched_only = matched_blocks - unmatched
     unmatched_only = unmatched - matched_blocks
     rsc = [c for c in b.calls() if c.is_(r'OptionParser::<T>::run_subparser$')]
@@ -148,9 +173,25 @@ def matched(ctx, cfg, fs):
             if st['k'] == 'assign' and st['rv']['k'] == 'agg' and st['rv'].get('adt') == 'error::Message' and st['rv']['variant'] == 'ParseFailure':
                 wraps.append(x.path)
     mes = [c for c in b.calls() if c.is_(r'Result::<.*>::map_err')]
-    ok = len(mes) >= len([r for r in rsc if any(q.kind == 'call' and q.call.bb == r.bb for m in mes for q in provenance(b, m.args[0], m.bb, 'term', through=None))]) and len(wraps) >= 2
     first_runs = [r for r in rsc if scopes.state_id(b, r.args[1], r.bb) == 'args']
-    wrapped = all(any(q.kind == 'call' and q.call.bb == r.bb for m in mes for q in provenance(b, m.args[0], m.bb, 'term', through=None)) for r in first_runs)
+    # `run.map_err(|e| Error(Message::ParseFailure(e)))`, or the same thing spelled as a match on the outcome
+    def explicit_wrap_of(q):
+        """q: root of the payload of an `Error(..)`: a Message::ParseFailure built from the Err payload of a run"""
+        if not (q.kind == 'agg' and q.what == 'error::Message::ParseFailure'):
+            return []
+        return [y.call for y in provenance(b, q.extra['fields'][0], q.site[0], q.site[1], through=None) if y.kind == 'call' and y.call.is_(r'run_subparser$') and y.path == ['as Err', '0']]
+    explicit = {}
+    for i, k, st in b.stmts():
+        if st['k'] == 'assign' and st['rv']['k'] == 'agg' and st['rv'].get('adt') == 'error::Message' and st['rv']['variant'] == 'ParseFailure':
+            for y in provenance(b, st['rv']['fields'][0], i, k, through=None):
+                if y.kind == 'call' and y.call.is_(r'run_subparser$') and y.path == ['as Err', '0']:
+                    explicit.setdefault(y.call.bb, []).append(i)
+    def explicit_final(r):
+        """every Err edge of the run's outcome leads to the ParseFailure wrapping"""
+        sw = switch_on_call(b, r)
+        return r.bb in explicit and sw is not None and sw.target('Err') is not None and all(only_via_edge(b, sw.b, sw.target('Err'), i) for i in explicit[r.bb]) and \
+            all(i in explicit[r.bb] or not b.reaches(sw.target('Err'), [i], avoid=set(explicit[r.bb])) for i in err_return_blocks(b))
+    wrapped = all(any(q.kind == 'call' and q.call.bb == r.bb for m in mes for q in provenance(b, m.args[0], m.bb, 'term', through=None)) or explicit_final(r) for r in first_runs)
     ctx.ob('M.matched', 'ParseCommand::eval:inner-failure-is-final', wrapped and bool(first_runs) and len(wraps) >= 1,
            'the outcome of the inner run on the caller\'s state is mapped through Message::ParseFailure (final, not catchable): %s' % wrapped, where=b.where(), cfg=cfg)
     # every failure returned by a matched command is the (wrapped) outcome of the FIRST inner run: a retry on a
@@ -168,9 +209,10 @@ def matched(ctx, cfg, fs):
                     inner = []
                     if q.kind == 'agg' and q.what == 'error::Error::Error':
                         inner = provenance(b, q.extra['fields'][0], q.site[0], q.site[1], through=None)
-                    good = bool(inner) and all(z.kind == 'call' and z.call.is_(r'Result::<.*>::map_err') and z.path == ['as Err', '0'] and
-                                               any(y.kind == 'call' and y.call in first_runs or (y.kind == 'call' and any(y.call.bb == fr.bb for fr in first_runs))
-                                                   for y in provenance(b, z.call.args[0], z.call.bb, 'term', through=None)) for z in inner)
+                    good = bool(inner) and all((z.kind == 'call' and z.call.is_(r'Result::<.*>::map_err') and z.path == ['as Err', '0'] and
+                                                any(y.kind == 'call' and y.call in first_runs or (y.kind == 'call' and any(y.call.bb == fr.bb for fr in first_runs))
+                                                    for y in provenance(b, z.call.args[0], z.call.bb, 'term', through=None))) or
+                                               any(any(w.bb == fr.bb for fr in first_runs) for w in explicit_wrap_of(z)) for z in inner)
                     if not good:
                         errs_ok = False; bad.append(b.where(i))
     ctx.ob('M.matched', 'ParseCommand::eval:failure-is-first-outcome', errs_ok,
@@ -182,10 +224,5 @@ def matched(ctx, cfg, fs):
     itemc = [c for c in b.calls() if c.bb in unmatched_only and c.is_(r'ParseCommand::<T>::item$')]
     ctx.ob('U.unmatched', 'ParseCommand::eval:unmatched-is-missing', [v for (_, v) in msgs] == ['Missing'] and len(itemc) == 1, 'the unmatched path reports Missing(self.item()): %s' % msgs, where=b.where(unmatched_entry), cfg=cfg)
     # take_cmd is tried for every long and short name, on the caller's state
-    clos = fs.closures_of(b)
-    n_tk = sum(1 for clo in clos for x in clo.calls() if x.is_(r'take_cmd$'))
-    recv = set()
-    for c in anyc:
-        for q in provenance(b, c.args[0], c.bb, 'term', through=DEFAULT_THROUGH + [r'slice::<impl \[T\]>::iter$']):
-            recv.add('.'.join(q.path))
-    ctx.ob('U.unmatched', 'ParseCommand::eval:names-tried', n_tk == 2 and recv == {'longs', 'shorts'}, 'the name test tries take_cmd for every entry of %s (%d closures)' % (sorted(recv), n_tk), where=b.where(), cfg=cfg)
+    n_tk = nt['sites']; recv = nt['tried']
+    ctx.ob('U.unmatched', 'ParseCommand::eval:names-tried', n_tk == 2 and recv == {'longs', 'shorts'}, 'the name test tries take_cmd for every entry of %s (%d call sites)' % (sorted(recv), n_tk), where=b.where(), cfg=cfg)
